@@ -31,8 +31,10 @@ ASSUME = [
 ]
 RULE = ("seeded sequences of 1-6 generate_revision / command.revision / command.merge calls: heads {single head, explicit id, "
         "several heads (merge), base, spliced non-head, label@head}, branch labels, depends_on {ids, partial ids, labels}, "
-        "messages and ids from {ASCII, quotes, backslash-free unicode, newlines, non-printable}, file_template and "
-        "truncate_slug_length variants, 1-2 version_locations. non-trivial = at least two revisions were generated; "
+        "messages and ids from {ASCII, quotes, backslash-free unicode, newlines, non-printable}, file_template tokens "
+        "{rev, slug, year, month, day, hour, minute, second, epoch}, truncate_slug_length {unset, 5, 40}, 1-3 version_locations "
+        "(one with a space in its name); plus a family of 3-4 independent roots merged at once (command.merge, "
+        "command.revision and generate_revision with 3-4 heads) followed by a revision on the merge. non-trivial = at least two revisions were generated; "
         "distinct by the encoded input")
 EXHAUSTIVE = {"quick": False, "thorough": False}
 CASE_TIMEOUT = 120
@@ -52,6 +54,8 @@ IDS = ["r{k}a{k}x", "r{k}b'{k}q", 'r{k}c"{k}d', "r{k}dé{k}ü", "r{k}e {k}sp", "
 MSGS = ["plain message", "it's quoted", 'say "hi" twice', "multi\nline\nmessage", "unicodé 中文 ✓", "tab\there", "",
         "ends with quote'", "percent %s %(x)s ${y}", "a\u200bzero", "<%text>mako</%text> ## comment", "x" * 70]
 LABELS = ["lab{k}", "br'{k}", "naïve{k}"]
+FILE_TEMPLATES = [None, "%%(rev)s_%%(slug)s", "%%(year)d_%%(month).2d_%%(rev)s", "%%(slug)s-%%(rev)s", "%%(epoch)s_%%(rev)s",
+                  "%%(year)d%%(month).2d%%(day).2d_%%(hour).2d%%(minute).2d%%(second).2d_%%(rev)s_%%(slug)s"]
 FINDING_IDS = ["C17-docstring-triple-quote", "C17-docstring-backslash", "C17-revid-equals-label"]
 
 
@@ -96,9 +100,23 @@ def gen_seq(rnd, k, reg):
         if i > 0 and y < .3:
             c["deps"] = [rnd.choice(["id", "partial", "label"]) for _ in range(rnd.choice([1, 1, 2]))]
         calls.append(c)
-    cfg = {"file_template": rnd.choice([None, "%%(rev)s_%%(slug)s", "%%(year)d_%%(month).2d_%%(rev)s", "%%(slug)s-%%(rev)s"]),
-           "truncate_slug_length": rnd.choice([None, 5, 40]), "locations": rnd.choice([1, 1, 2])}
+    cfg = {"file_template": rnd.choice(FILE_TEMPLATES),
+           "truncate_slug_length": rnd.choice([None, 5, 40]), "locations": rnd.choice([1, 1, 2, 3])}
     return {"calls": calls, "cfg": cfg, "seed": rnd.randrange(1 << 30)}
+
+
+def gen_merge3(rnd, k):
+    """three (or four) independent roots, possibly in different version locations, merged by command.merge / generate_revision"""
+    n = 3 + (k % 2)
+    calls = [{"rid": IDS[(k + i) % len(IDS)].format(k=i), "msg": rnd.choice(MSGS), "via": "generate", "head": "base", "fixed": True}
+             for i in range(n)]
+    if k % 3 == 0:
+        calls.insert(2, {"rid": "r9a9x", "msg": "child", "via": "generate", "head": "pick_head", "fixed": True})
+    calls.append({"rid": "m%da%dx" % (k % 10, k % 10), "msg": rnd.choice(MSGS), "via": ["merge", "generate", "revision"][k % 3],
+                  "head": "merge_all", "fixed": True})
+    calls.append({"rid": "z0a0x", "msg": "after merge", "via": "generate", "head": "head_symbol", "fixed": True})
+    return {"calls": calls, "cfg": {"file_template": FILE_TEMPLATES[k % len(FILE_TEMPLATES)], "truncate_slug_length": [None, 5][k % 2],
+                                    "locations": 1 + k % 3}, "seed": rnd.randrange(1 << 30)}
 
 
 def finding_cases(reg):
@@ -127,6 +145,8 @@ def generate(tier, seed):
     n = 160 if tier == "quick" else 5000
     for k in range(n):
         yield gen_seq(rnd, k, reg)
+    for k in range(24 if tier == "quick" else 300):
+        yield gen_merge3(rnd, k)
 
 
 def search(tier, seed):
@@ -217,17 +237,18 @@ def _run_case(h):
         if c["truncate_slug_length"]:
             cfg.set_main_option("truncate_slug_length", str(c["truncate_slug_length"]))
         locs = [os.path.join(d, "scripts", "versions")]
-        if c["locations"] == 2:
-            locs.append(os.path.join(d, "other_versions"))
-            os.makedirs(locs[1])
-            cfg.set_main_option("version_locations", " ".join(locs))
-            cfg.set_main_option("version_path_separator", "space")
+        if c["locations"] >= 2:
+            for extra in ["other_versions", "third versions dir"][:c["locations"] - 1]:
+                locs.append(os.path.join(d, extra))
+                os.makedirs(locs[-1])
+            cfg.set_main_option("version_locations", os.pathsep.join(locs))
+            cfg.set_main_option("version_path_separator", "os")
         sd = ScriptDirectory.from_config(cfg)
         ids, labels = [], []
         for call in h["calls"]:
             heads = list(sd.revision_map.heads)
             kind = call["head"]
-            if len(heads) >= 2 and ids and rnd.random() < 0.4:
+            if len(heads) >= 2 and ids and not call.get("fixed") and rnd.random() < 0.4:
                 kind = "merge"
             splice = call.get("splice", False)
             if kind == "base" or not ids:
@@ -239,6 +260,11 @@ def _run_case(h):
                 x = rnd.choice(ids)
                 head, parents = x, [x]
                 splice = True
+            elif kind == "merge_all" and len(heads) >= 2:
+                xs = list(heads)
+                rnd.shuffle(xs)
+                head, parents = tuple(xs), xs
+                kind = "merge"
             elif kind == "merge" and len(heads) >= 2:
                 xs = rnd.sample(heads, rnd.randint(2, min(3, len(heads))))
                 head, parents = tuple(xs), xs
@@ -288,7 +314,7 @@ def _run_case(h):
             rid, msg = call["rid"], call["msg"]
             kw = dict(head=head, splice=splice, branch_labels=labs or None, depends_on=deps_req or None)
             vpath = None
-            if c["locations"] == 2 and head == "base":
+            if c["locations"] >= 2 and head == "base":
                 vpath = rnd.choice(locs)
             script, module_ok = None, True
             before = {os.path.join(loc, fn) for loc in locs for fn in os.listdir(loc)}
@@ -296,8 +322,9 @@ def _run_case(h):
                 if call["via"] == "generate":
                     script = sd.generate_revision(rid, msg, version_path=vpath, **kw)
                 else:
-                    if kind == "merge" and isinstance(head, tuple) and not labs and not deps_req:
-                        script = command.merge(cfg, list(head), message=msg, rev_id=rid)
+                    if call["via"] == "merge" or (kind == "merge" and isinstance(head, tuple) and not labs and not deps_req):
+                        script = command.merge(cfg, list(head) if isinstance(head, tuple) else [head], message=msg, rev_id=rid,
+                                               branch_label=labs or None)
                     else:
                         script = command.revision(cfg, message=msg, rev_id=rid, version_path=vpath, head=head, splice=splice,
                                                   branch_label=labs or None, depends_on=deps_req or None)
